@@ -63,3 +63,8 @@ Print Assumptions C09_other_version.
 Print Assumptions C09_invariant.
 Print Assumptions C09_version_guard.
 Print Assumptions C09_reuse_condition_tied.
+(* the version gate of the model is the test _read_cached_report states (regenerated from scan.py on this run) *)
+Theorem C09_version_gate_tied : forall v es,
+  (exists x, usable_cache (CDoc v es) = Some x) <-> cache_version_accepted true v tool_version = true.
+Proof. exact tie_usable_cache. Qed.
+Print Assumptions C09_version_gate_tied.
